@@ -13,6 +13,7 @@
 //!       {"do":"Settle"}     iterate until nothing changes; the record is marked quiescent ("q":true)
 //!       {"do":"PollWoken"}  poll every worker whose waker fired (timers, stop messages)
 
+#![recursion_limit = "256"]
 mod builder;
 mod e2e;
 mod load;
@@ -193,6 +194,7 @@ impl Run {
             "lstTimer": s.sock_backoff.iter().zip(s.sock_expired.iter())
                 .map(|(b, e)| if *e { 1 } else if *b { 2 } else { 0 }).collect::<Vec<_>>(),
             "timeoutSet": s.timeout_ms >= 0,
+            "timeoutMs": s.timeout_ms, "lstRemain": s.sock_remain_ms,
             "pathOk": s.uds_path,
             "errq": self.injected,
             "connRefused": (0..ncl).any(|c| !s.connected[c]),
@@ -536,7 +538,11 @@ fn run_schedule(run_id: usize, sch: &Value, dir: &str, trace: &mut Trace, strict
             "PollWoken" => (0..w).collect(),
             _ => vec![],
         };
-        let mut rec = json!({"ev": "step", "run": run_id, "k": k, "do": d, "q": q,
+        // virtual time moved inside this iteration (an anchored Advance, fired at its yield point or applied after the
+        // iteration when the yield point was never reached)
+        let adv_in_iter = st.get("anchored").and_then(|a| a.as_array()).map(|a| a.iter().any(|x| x["step"]["do"] == "Advance")).unwrap_or(false);
+        let mut rec = json!({"ev": "step", "run": run_id, "k": k, "do": d, "q": q, "advInIter": adv_in_iter,
+            "iterRan": d == "Iter" && run.sim.last_iter.0,
             "pe": pe && d == "Iter", "pausedDispatch": paused_dispatch, "ndisp": ndisp, "st": run.project(&s),
             "polled": polled_workers, "prevStop": prev_stop, "prevTotal": prev_total, "prevLive": prev_live, "replyNow": reply_now,
             "prevWstate": prev.wstate, "prevSstatus": prev.sstatus,
